@@ -153,6 +153,16 @@ func milenageDomain(e *emitter) {
 		sqn := sqnBytes(sqnNet)
 		e.op("mil_f1", hx(opc), hx(k), hx(rnd), hx(sqn), hx(amf))
 		e.op("mil_f2345", hx(opc), hx(k), hx(rnd), "1", "1", "1", "1", "1")
+		if c%5 == 0 {
+			// tokens that are not AUTNs: the valid AUTN cut to 0..15 octets (a MAC-A prefix, no MAC at all) and extended
+			short := make([]byte, 16)
+			rl0 := uint(8)
+			milenage.MilenageGenerate(opc, amf, k, sqn, rnd, short, make([]byte, 16), make([]byte, 16), make([]byte, 6), make([]byte, 8), &rl0)
+			for _, n := range []int{0, 6, 8, 9, 12, 15} {
+				e.op("mil_check", hx(opc), hx(k), hx(sqnBytes(0)), hx(rnd), hx(short[:n]))
+			}
+			e.op("mil_check", hx(opc), hx(k), hx(sqnBytes(0)), hx(rnd), hx(append(append([]byte{}, short...), 0x00)))
+		}
 		if c%4 == 0 {
 			// the same K and RAND under another operator code, back to back (and the first one again)
 			opc2 := e.bytes(16)
